@@ -3,7 +3,7 @@
 // This source code is licensed under the MIT license found in the
 // LICENSE file in the root directory of this source tree.
 
-use alloc::vec::Vec;
+use alloc::{string::ToString, vec::Vec};
 
 use crypto::{ElementHasher, Hasher, VectorCommitment};
 use math::FieldElement;
@@ -94,7 +94,11 @@ impl Queries {
         V: VectorCommitment<H>,
     {
         assert!(domain_size.is_power_of_two(), "domain size must be a power of two");
-        assert!(num_queries > 0, "there must be at least one query");
+        if num_queries == 0 {
+            return Err(DeserializationError::InvalidValue(
+                "there must be at least one query".to_string(),
+            ));
+        }
         assert!(values_per_query > 0, "a query must contain at least one value");
 
         // make sure we have enough bytes to read the expected number of queries
